@@ -341,6 +341,20 @@ def run(ctx: Ctx) -> int:
     ok = through_mro and not own
     ctx.oblige("C12.f", ok, (own or [gcm])[0], "the methods offered as subcommands are the class's members through the MRO" if ok else "get_class_methods only lists the class's own attributes: inherited methods and classmethods are not offered as subcommands (a class whose public methods are all inherited is treated as having none)", fn=gcm, construct="class methods through the MRO")
 
+    # the list of added arguments decides which helper options (--config / --print_config) a component keeps: it is
+    # extended with what was just added, never with itself
+    actp = ctx.func("_cli:_add_component_to_parser")
+    for s in [x for x in walk_local(actp) if isinstance(x, ast.AugAssign) and isinstance(x.target, ast.Name)]:
+        selfref = [g_ for c_ in ast.walk(s.value) if isinstance(c_, (ast.ListComp, ast.GeneratorExp)) for g_ in c_.generators if isinstance(g_.iter, ast.Name) and g_.iter.id == s.target.id]
+        ok = not selfref
+        ctx.oblige("C12.b", ok, s, f"`{s.target.id}` is extended with newly collected names" if ok else f"`{src(s, 60)}` extends `{s.target.id}` by iterating over itself: for a class without constructor parameters the list stays empty, its --config / --print_config options are removed, and `Tool --config ... run` no longer reaches the method", fn=actp)
+    # forward references are resolved inside every kind of container hint (the tables of container origins)
+    hst = ctx.func("_postponed_annotations:has_subtypes")
+    tabs_ = {n_.comparators[0].id for n_ in ast.walk(hst) if isinstance(n_, ast.Compare) and isinstance(n_.ops[0], ast.In) and isinstance(n_.comparators[0], ast.Name)}
+    need_ = {"sequence_origin_types", "tuple_set_origin_types", "mapping_origin_types"}
+    ok = need_ <= tabs_
+    ctx.oblige("C12.f", ok, hst, "has_subtypes covers sequences, tuples/sets and mappings" if ok else f"has_subtypes no longer tests {sorted(need_ - tabs_)}: a quoted forward reference inside such a container hint stays unresolved - the parameter is dropped from the CLI (or add fails) although the signature declares it", fn=hst, construct="container tables covered")
+
     ctx.trusted_base += ["argparse raises on conflicting option strings, so an unconditional --config option fails loudly if the component has a `config` parameter"]
     return ctx.finish(
         explanation=(
